@@ -46,15 +46,16 @@ Section Segwit.
     destruct (convert_8_5_total prog Hp) as (d & Ed & Hd & Ld). rewrite Ed in Henc.
     destruct hrp_wf as [Hne Hfine].
     assert (Hdata : syms_ok (ver :: d)) by (constructor; [exact Hv|exact Hd]).
-    rewrite encode_ok in Henc by assumption. cbn [of_b32] in Henc. injection Henc as <-.
-    set (s := kp_hrp kp ++ SEPARATOR :: map char_of ((ver :: d) ++ create_checksum enc (kp_hrp kp) (ver :: d))).
+    rewrite encode_ok in Henc by assumption. cbn [of_b32] in Henc.
+    assert (Es : s = kp_hrp kp ++ SEPARATOR :: map char_of ((ver :: d) ++ create_checksum enc (kp_hrp kp) (ver :: d))) by congruence.
+    clear Henc.
     assert (Hdec : decode limit s = DecOk enc (kp_hrp kp) (ver :: d)).
     { apply (decode_encode limit enc (kp_hrp kp) (ver :: d) s); auto.
       - cbn [length]. rewrite Ld. lia.
-      - apply encode_ok; assumption. }
+      - rewrite Es. apply encode_ok; assumption. }
     unfold decode_destination.
     assert (Hpre : bytes_eqb (map lower_case (firstn (length (kp_hrp kp)) s)) (kp_hrp kp) = true).
-    { unfold s. rewrite firstn_app, Nat.sub_diag, firstn_all, firstn_O, app_nil_r.
+    { rewrite Es. rewrite firstn_app, Nat.sub_diag, firstn_all, firstn_O, app_nil_r.
       assert (E : map lower_case (kp_hrp kp) = kp_hrp kp).
       { clear -Hfine. induction Hfine; simpl; auto. rewrite fine_lower by assumption. f_equal. assumption. }
       rewrite E. apply bytes_eqb_refl. }
@@ -88,8 +89,8 @@ Section Segwit.
       rewrite (segwit_decode_encode BECH32M 1 x s); auto; try (apply Hmono; lia); try reflexivity.
       unfold classify_witness. cbn [N.eqb Pos.eqb andb negb encoding_eqb]. rewrite Hl. reflexivity.
     - (* P2A *)
-      rewrite (segwit_decode_encode BECH32M 1 ANCHOR_BYTES s); auto; try (apply Hmono; simpl; lia); try reflexivity.
-      repeat constructor.
+      rewrite (segwit_decode_encode BECH32M 1 ANCHOR_BYTES s); auto; try (apply Hmono; simpl; lia); try reflexivity;
+        try (repeat constructor; fail).
     - (* future witness versions *)
       repeat (apply Bool.andb_true_iff in Hwf; destruct Hwf as [Hwf ?]).
       repeat match goal with
@@ -110,3 +111,102 @@ Section Segwit.
       apply Bool.orb_false_iff in Hnot. destruct Hnot as [Hn1 Hn2]. rewrite Hn1, Hn2. reflexivity.
   Qed.
 End Segwit.
+
+(* ---------------------------------------------------------------------------------------------- *)
+(* base58 addresses *)
+From BV Require Import proofs.Base58Lemmas.
+
+(* the first character of the address string can never be (a case variant of) the first HRP character, so
+   DecodeDestination does not take the string for a bech32 address.  For a one-byte version p the string
+   encodes a number in [p * 256^24, (p+1) * 256^24): L is its number of base58 digits *)
+Definition b58_prefix_ok (p : N) (hrp0 : N) : Prop :=
+  if p =? 0 then lower_case 49 <> hrp0
+  else exists L, 0 < L /\ 58 ^ (L - 1) <= p * 256 ^ 24 /\ (p + 1) * 256 ^ 24 <= 58 ^ L /\
+       forall d, p * 256 ^ 24 / 58 ^ (L - 1) <= d <= ((p + 1) * 256 ^ 24 - 1) / 58 ^ (L - 1) -> d < 58 -> lower_case (c58 d) <> hrp0.
+
+Section Base58Addr.
+  Variable hash256 : list N -> list N.
+  Hypothesis hash_len : forall x, length (hash256 x) = 32%nat.
+  Hypothesis hash_bytes : forall x, Base58Lemmas.bytes_ok (hash256 x).
+  Variable limit : nat.
+  Variable kp : keyio_params.
+
+  Lemma not_bech32_by_first_char : forall c r h0 hr, kp_hrp kp = h0 :: hr -> lower_case c <> h0 ->
+    bytes_eqb (map lower_case (firstn (length (kp_hrp kp)) (c :: r))) (kp_hrp kp) = false.
+  Proof.
+    intros c r h0 hr Eh Hc. rewrite Eh. cbn [length firstn map]. unfold bytes_eqb.
+    destruct (list_eq_dec N.eq_dec _ _) as [E|]; [|reflexivity]. injection E as E _. contradiction.
+  Qed.
+
+  Lemma first_char_of_address : forall p h0 payload s, p < 256 -> Base58Lemmas.bytes_ok payload -> length payload = 20%nat ->
+    b58_prefix_ok p h0 -> encode_base58check hash256 ([p] ++ payload) = B58Str s ->
+    exists c r, s = c :: r /\ lower_case c <> h0.
+  Proof.
+    intros p h0 payload s Hp Hpl Hl Hok Henc. unfold encode_base58check in Henc.
+    destruct (checksum4 hash256 hash_len hash_bytes ([p] ++ payload)) as [L4 B4].
+    set (chk := firstn 4 (hash256 ([p] ++ payload))) in *.
+    unfold b58_prefix_ok in Hok. destruct (N.eqb_spec p 0) as [->|Hnz].
+    - destruct (encode_base58_first_char_zero (payload ++ chk) s) as [r Er].
+      + constructor; [reflexivity|]. apply Forall_app; split; assumption.
+      + rewrite <- Henc. f_equal.
+      + exists 49, r. split; assumption.
+    - destruct Hok as (L & HL & Hlo & Hhi & Hd).
+      replace (([p] ++ payload) ++ chk) with ([p] ++ (payload ++ chk)) in Henc by (rewrite app_assoc; reflexivity).
+      assert (Htl : length (payload ++ chk) = 24%nat) by (rewrite app_length, Hl, L4; reflexivity).
+      destruct (encode_base58_first_char [p] (payload ++ chk) s L) as (d & r & Es & Hdr & Hd58); auto.
+      + repeat constructor; assumption.
+      + apply Forall_app; split; assumption.
+      + destruct p; [contradiction|exact I].
+      + discriminate.
+      + cbn [rev app le_val]. rewrite Htl. change (N.of_nat 24) with 24. rewrite N.mul_0_r, N.add_0_r. exact Hlo.
+      + cbn [rev app le_val]. rewrite Htl. change (N.of_nat 24) with 24. rewrite N.mul_0_r, N.add_0_r. exact Hhi.
+      + exists (c58 d), r. split; [assumption|]. apply Hd; [|assumption].
+        cbn [rev app le_val] in Hdr. rewrite Htl in Hdr. change (N.of_nat 24) with 24 in Hdr. rewrite N.mul_0_r, N.add_0_r in Hdr. exact Hdr.
+  Qed.
+
+  Lemma has_prefix_app : forall p l, has_prefix p (p ++ l) = true.
+  Proof. intros. unfold has_prefix. rewrite firstn_app, Nat.sub_diag, firstn_all, firstn_O, app_nil_r. apply bytes_eqb_refl. Qed.
+
+  (* P2PKH: one-byte version p *)
+  Theorem address_roundtrip_pkh : forall p h0 hr h s, kp_pubkey kp = [p] -> kp_hrp kp = h0 :: hr -> p < 256 ->
+    b58_prefix_ok p h0 -> Base58Lemmas.bytes_ok h -> length h = 20%nat ->
+    encode_destination hash256 kp (DPKHash h) = AddrStr s ->
+    decode_destination hash256 limit kp s = (DPKHash h, E_ok).
+  Proof.
+    intros p h0 hr h s Epk Eh Hp Hok Hh Hl Henc. cbn [encode_destination] in Henc. rewrite Epk in Henc.
+    destruct (encode_base58check hash256 ([p] ++ h)) as [s'|] eqn:E; [|discriminate]. cbn [of_b58] in Henc.
+    assert (s' = s) by congruence. subst s'. clear Henc.
+    destruct (first_char_of_address p h0 h s Hp Hh Hl Hok E) as (c & r & -> & Hc).
+    unfold decode_destination. cbv zeta.
+    rewrite (not_bech32_by_first_char c r h0 hr Eh Hc).
+    rewrite (decode_encode_base58check hash256 hash_len hash_bytes ([p] ++ h) 21 (c :: r)); auto.
+    - rewrite Epk. cbn [length app]. rewrite Hl. cbn [Nat.add Nat.eqb andb].
+      change (p :: h) with ([p] ++ h). rewrite has_prefix_app. cbn [length skipn app]. reflexivity.
+    - constructor; assumption.
+    - cbn [length app]. rewrite Hl. reflexivity.
+    - lia.
+  Qed.
+
+  (* P2SH: one-byte version q different from the P2PKH version *)
+  Theorem address_roundtrip_sh : forall p q h0 hr h s, kp_pubkey kp = [p] -> kp_script kp = [q] -> p <> q ->
+    kp_hrp kp = h0 :: hr -> q < 256 ->
+    b58_prefix_ok q h0 -> Base58Lemmas.bytes_ok h -> length h = 20%nat ->
+    encode_destination hash256 kp (DScriptHash h) = AddrStr s ->
+    decode_destination hash256 limit kp s = (DScriptHash h, E_ok).
+  Proof.
+    intros p q h0 hr h s Epk Esc Hpq Eh Hq Hok Hh Hl Henc. cbn [encode_destination] in Henc. rewrite Esc in Henc.
+    destruct (encode_base58check hash256 ([q] ++ h)) as [s'|] eqn:E; [|discriminate]. cbn [of_b58] in Henc.
+    assert (s' = s) by congruence. subst s'. clear Henc.
+    destruct (first_char_of_address q h0 h s Hq Hh Hl Hok E) as (c & r & -> & Hc).
+    unfold decode_destination. cbv zeta.
+    rewrite (not_bech32_by_first_char c r h0 hr Eh Hc).
+    rewrite (decode_encode_base58check hash256 hash_len hash_bytes ([q] ++ h) 21 (c :: r)); auto.
+    - rewrite Epk, Esc. cbn [length app]. rewrite Hl. cbn [Nat.add Nat.eqb andb].
+      assert (Hnp : has_prefix [p] (q :: h) = false).
+      { unfold has_prefix. cbn [length firstn]. unfold bytes_eqb. destruct (list_eq_dec N.eq_dec [p] [q]) as [E1|]; [|reflexivity]. injection E1 as E1. contradiction. }
+      rewrite Hnp. change (q :: h) with ([q] ++ h). rewrite has_prefix_app. cbn [length skipn app]. reflexivity.
+    - constructor; assumption.
+    - cbn [length app]. rewrite Hl. reflexivity.
+    - lia.
+  Qed.
+End Base58Addr.
